@@ -147,8 +147,9 @@ def _judge_spec(spec: Dict[str, Any], n: int = 24) -> Optional[Dict[str, Any]]:
 
 
 def _planner_models(rep: vlib.Reporter, rng: random.Random, specs: List[Dict[str, Any]], seeds: List[int], big: bool, dist: Dict[str, Any]) -> bool:
-    """Planner models beyond Stage A against the real planner: Model/PlannerB.v (several frameworks, transform steps) and
-    Model/PlannerL.v (Links: trekker, inversion, postponed links, join steps), each evaluated under the iteration orders observed
+    """Planner models beyond Stage A against the real planner: Model/PlannerB.v (several frameworks, transform steps),
+    Model/PlannerL.v (Links: trekker, inversion, postponed links, join steps) and Model/PlannerO.v (non-default options, declared
+    types: request -> graph -> splits), each evaluated under the iteration orders observed
     in the same preparation.  A request on which model and planner disagree is then searched for a failure of the property
     itself; the disagreement is reported either way."""
     from harness import planner_b, planner_l
@@ -172,13 +173,36 @@ def _planner_models(rep: vlib.Reporter, rng: random.Random, specs: List[Dict[str
     disL = planner_l.check_plans(l_specs, "C04", hash_seeds=tuple(seeds[1:4] if big else seeds[1:2]))
     dist["planner_model_L"] = {k: v for k, v in planner_l.LAST_INFO.items() if k != "per_seed"}
     dist["planner_model_L"]["per_seed"] = {k: {a: b for a, b in v.items() if a != "coq"} for k, v in planner_l.LAST_INFO.get("per_seed", {}).items()}
+    # --- options and declared types (Model/PlannerO.v: request -> graph with merge_options / de-duplication by ==, splits by
+    #     (group options, type)); every preparation compared stage by stage, a sample of accepted plans run and judged per instance
+    from harness import planner_o
+    prO = vlib.build_props("PlannerO")
+    rep.proof(prO)
+    o_specs = list(planner_o.witness_specs().values()) + [planner_o.gen_any(rng) for _ in range(400 if big else 45)]
+    disO = planner_o.check_plans(o_specs, "C04", hash_seeds=tuple(seeds[1:3] if big else seeds[1:2]), in_process=2 if big else 1,
+                                 run_specs=[planner_o.gen_o_run(rng) for _ in range(80 if big else 10)], run_timeout=BOUND_S)
+    dist["planner_model_O"] = {k: v for k, v in planner_o.LAST_INFO.items() if k not in ("coq", "coq_values")}
+    KNOWN_O = {planner_o.KF_AMBIGUOUS: "C04-nondet-step-composition", planner_o.KF_ERRCLASS: "C04-nondet-option-error-reported"}
     seen: Set[str] = set()
-    for tag, dis in (("plannerB", disB), ("plannerL", disL)):
+    for tag, dis in (("plannerB", disB), ("plannerL", disL), ("plannerO", disO)):
         for d_ in dis:
+            if tag == "plannerO" and d_.get("known"):
+                rep.finding(KNOWN_O[d_["known"]], d_["what"], {"kind": "plannerO", "spec": d_["spec"], "stage": d_["stage"]})
+                continue
             key = json.dumps(d_.get("spec"), sort_keys=True)
             if key in seen or len(seen) >= 8:
                 continue
             seen.add(key)
+            if tag == "plannerO":
+                w = {"kind": d_["stage"]} if d_["stage"] in ("run", "values", "determinism") else planner_o.judge(d_["spec"])
+                what = f"real planner and plannerO model disagree at {d_.get('stage')} ({d_.get('run')}): {str(d_.get('what'))[:300]}"
+                if w:
+                    what += f"; on this request the property fails: {json.dumps(w, default=str)[:300]}"
+                rep.finding(f"plannerO:{d_.get('stage')}:{key}", what,
+                            {"kind": "plannerO", "spec": d_.get("spec"), "stage": d_.get("stage"), "what": d_.get("what"), "witness": w,
+                             "correspondence": "harness/planner_o.check_plans"}, found_input=bool(w))
+                found = True
+                continue
             w = _judge_spec(d_["spec"]) if d_.get("spec") else None
             what = f"real planner and {tag} model disagree at {d_.get('stage')}: {str(d_.get('what'))[:300]}"
             if w:
@@ -187,10 +211,10 @@ def _planner_models(rep: vlib.Reporter, rng: random.Random, specs: List[Dict[str
                         {"kind": tag, "spec": d_.get("spec"), "stage": d_.get("stage"), "what": d_.get("what"), "witness": w,
                          "correspondence": f"harness/{'planner_b' if tag == 'plannerB' else 'planner_l'}.check_plans"}, found_input=bool(w))
             found = True
-    for nm, pr_ in (("PlannerB", prB), ("PlannerL", prL)):
+    for nm, pr_ in (("PlannerB", prB), ("PlannerL", prL), ("PlannerO", prO)):
         if not pr_.ok and not found:
             rep.finding(f"proof-broken-{nm}", f"Props/{nm}.v no longer checks", {"failed_files": pr_.failed_files, "log_tail": pr_.log[-2000:]}, found_input=False)
-    rep.count(len(b_specs) * 3 + len(l_specs) * 2)
+    rep.count(len(b_specs) * 3 + len(l_specs) * 2 + planner_o.LAST_INFO.get("preparations", 0) + planner_o.LAST_INFO.get("runs", 0))
     return found
 
 
@@ -336,6 +360,14 @@ def replay(path: str) -> int:
     if r.get("kind") == "srctie":
         from harness import srctie
         srctie.replay(r, show=True)
+        return 0
+    if r.get("kind") == "plannerO":
+        from harness import planner_o
+        dis = planner_o.check_plans([r["spec"]], "C04replay", hash_seeds=(1, 2, 3), run_specs=[r["spec"]])
+        print({k: v for k, v in planner_o.LAST_INFO.items() if k not in ("coq", "coq_values")})
+        for d_ in dis:
+            print("KNOWN" if d_.get("known") else "DISAGREEMENT", d_["stage"], d_.get("run"), d_["what"][:400])
+        print("judge:", planner_o.judge(r["spec"]))
         return 0
     install()
     o = [outcome(r["spec"]) for _ in range(3)]
